@@ -260,6 +260,12 @@ func (h *HTTPSim) panos(w http.ResponseWriter, r *http.Request, ord int) {
 			m := &h.Spec.Members[i]
 			if m.User == q.Get("user") && m.Password == q.Get("password") {
 				h.event(ord, "keygen user="+m.User, "login", "accepted", "")
+				switch h.Spec.KeyForm {
+				case "nested":
+					// The key is there, but not where the tool looks for it.
+					fmt.Fprintf(w, `<response status="success"><result><entry name="%s"><key>%s</key></entry></result></response>`, m.User, xmlEscape(m.Key))
+					return
+				}
 				if h.Spec.KeyForm == "cdata" {
 					fmt.Fprintf(w, `<response status="success"><result><key><![CDATA[%s]]></key></result></response>`, m.Key)
 				} else {
